@@ -242,6 +242,7 @@ def add_plugin_to_registry(
             "key": plugin_register_key,
             "cls": full_plugin_name(plugin),
             "fmt": instance_identifier,
+            "pfmt": _vt.registry_projection({"": plugin})[""][1],
         }
     if "." in plugin_register_key:
         if _vt.ENABLED:
